@@ -44,6 +44,9 @@ class C02(FprCheck):
             for k in ("stereo", "counts", "include_disconnected", "rdkit_invariants", "exclude_floating", "remove_duplicate_substructs"):
                 self.count("%s:%s" % (k, o[k]))
             yield {"t": "spec", "ref": ref, "conf": ci, "tr": None, "opts": o, "queries": qs}
+        for _ in range(3 if self.tier == "quick" else 40):
+            self.count("other-thread-fingerprinting")
+            yield {"t": "preempt", "sample": rng.randrange(10 ** 6), "points": 40}
         # conformers with coincident heavy atoms (distance exactly 0): the algorithm is defined on them - a pair at distance 0 is
         # within every positive shell radius - and the library fingerprints them (with a warning)
         refs = [r for r in self.refs() if "smiles" in r or "sdf" in r]
@@ -60,7 +63,24 @@ class C02(FprCheck):
             yield {"t": "spec", "ref": {"overlap": base, "mode": ["pair", "pair", "allzero"][k % 3], "seed": rng.randrange(1000)}, "conf": 0, "tr": None,
                    "opts": o, "queries": MG.gen_queries(rng, o, 1)}
 
+    def model_ops(self, case):
+        if case.get("t") == "preempt":
+            return [{"op": "fpr.hash", "words": []}]
+        return super().model_ops(case)
+
+    def model_answer(self, case, answers):
+        if case.get("t") == "preempt":
+            return {"ok": "see prop"}
+        return super().model_answer(case, answers)
+
+    def nontrivial(self, case, a_impl):
+        if case.get("t") == "preempt":
+            return vlib.canon(case)
+        return super().nontrivial(case, a_impl)
+
     def impl(self, case):
+        if case.get("t") == "preempt":
+            return {"ok": "see prop"}
         if case.get("t") == "witness":
             mol, conf = build(case)
             return MG.run_impl(mol, conf, case["opts"], [])
@@ -75,6 +95,21 @@ class C02(FprCheck):
         return d
 
     def prop(self, case):
+        if case.get("t") == "preempt":
+            # "the same input yields the same identifiers" also while other fingerprinting runs in another thread of the process: a
+            # chosen interleaving (harness/props/C04.preempted), the undisturbed run being the one compared with the specification
+            from harness.props import C04 as H4
+            if sys.gettrace() is not None:
+                return None
+            jobs = [j for j in H4.sample_jobs(case["sample"], 8) if MG.in_domain(MG.load_ref(j[0]), j[2])]
+            if len(jobs) < 2:
+                return None
+            want = H4.job_result(jobs[0])
+            got, hits = H4.preempted(jobs[0], jobs[1], case["points"], case["sample"])
+            if got != want:
+                return {"key": "identifiers-differ-from-spec:other-thread-fingerprinting",
+                        "what": "identifiers computed while another thread of the process fingerprints another molecule (pre-empted at %d chosen entries) differ from an undisturbed run" % hits}
+            return None
         o = case["opts"]
         mol, conf = build(case)
         if case.get("t") == "witness":
